@@ -43,6 +43,18 @@ LOAD = {
  'quoted_keys':     lambda n: ''.join('"k%d": \'v\'\n' % i for i in range(n)),
  'seq_of_flow_seqs': lambda n: '- [a, b, 1]\n' * n,
  'dup_keys':        lambda n: 'k: 1\n' * n,
+ # one long line of many words, with the character that ends / reclassifies the scalar far to the right (a look-ahead repeated per word would be quadratic)
+ 'plain_words':         lambda n: 'a: ' + 'word ' * (2 * n) + 'end',
+ 'plain_words_comment': lambda n: 'a: ' + 'word ' * (2 * n) + '# note',
+ 'plain_words_colon':   lambda n: 'a: ' + 'word ' * (2 * n) + '12:30',
+ 'plain_words_url':     lambda n: 'a: ' + 'see http://x.y/z?q=1#f ' * n + 'end',
+ 'flow_words':          lambda n: '[' + 'word ' * (2 * n) + ', k: v]',
+ 'flow_words_colon':    lambda n: '{k: ' + 'word ' * (2 * n) + 'a:b, z: 1}',
+ 'dq_space_run':        lambda n: '"a' + ' ' * (10 * n) + 'b"',
+ 'sq_space_run':        lambda n: "'a" + ' ' * (10 * n) + "b'",
+ 'literal_long_line':   lambda n: '|\n  ' + 'x ' * (5 * n) + '\n',
+ 'comment_long':        lambda n: '# ' + 'c ' * (5 * n) + '\na',
+ 'indicator_words':     lambda n: 'a: ' + 'a-b c?d e,f ' * n + 'end',
 }
 def _deep(n):
     v = []
